@@ -59,37 +59,49 @@ example (p : π) (k : κ) (d : δ) (f : φ) :
   · exact (chain_slots p k d f).1
   · exact (List.Perm.swap _ _ _).trans ((List.Perm.cons _ (List.Perm.swap _ _ _)).trans (List.Perm.swap _ _ _))
 
+/-- which callbacks a state class already stores: 0 kernel, 1 distance, 2 features -/
+def attached : State π κ δ φ → List Nat
+  | .P _ => [] | .K _ _ => [0] | .D _ _ => [1] | .F _ _ => [2]
+  | .KD _ _ _ => [0, 1] | .KF _ _ _ => [0, 2] | .DF _ _ _ => [1, 2] | .KDF _ _ _ _ => [0, 1, 2]
+
+theorem step_attached (s s' : State π κ δ φ) (o : Op κ δ φ) (h : step s o = some s') :
+    o.kind ∉ attached s ∧ ∀ n, n ∈ attached s → n ∈ attached s' := by
+  cases s <;> cases o <;> simp [step] at h <;> subst h <;> simp [attached, Op.kind]
+
+theorem step_attached_self (s s' : State π κ δ φ) (o : Op κ δ φ) (h : step s o = some s') :
+    o.kind ∈ attached s' := by
+  cases s <;> cases o <;> simp [step] at h <;> subst h <;> simp [attached, Op.kind]
+
+theorem run_nodup (l : List (Op κ δ φ)) : ∀ (s s' : State π κ δ φ), run s l = some s' →
+    (l.map Op.kind).Nodup ∧ ∀ o ∈ l, o.kind ∉ attached s := by
+  induction l with
+  | nil => intro s s' _; simp
+  | cons o t ih =>
+    intro s s' h
+    simp only [run] at h
+    cases hst : step s o with
+    | none => simp [hst] at h
+    | some s1 =>
+      simp only [hst] at h
+      obtain ⟨hnd, hall⟩ := ih s1 s' h
+      obtain ⟨hnot, hsub⟩ := step_attached s s1 o hst
+      refine ⟨?_, ?_⟩
+      · simp only [List.map_cons, List.nodup_cons]
+        refine ⟨?_, hnd⟩
+        intro hmem
+        obtain ⟨o', ho', hk⟩ := List.mem_map.mp hmem
+        exact hall o' ho' (hk ▸ step_attached_self s s1 o hst)
+      · intro o' ho'
+        rcases List.mem_cons.mp ho' with h1 | h1
+        · rw [h1]; exact hnot
+        · exact fun hin => hall o' h1 (hsub _ hin)
+
 /-- a callback cannot be attached twice (the member function does not exist in the state reached) -/
 theorem chain_no_repeat (p : π) (ops : List (Op κ δ φ)) (c : Call π κ δ φ) (h : chain p ops = some c) :
     (ops.map Op.kind).Nodup := by
-  have key : ∀ (l : List (Op κ δ φ)) (s : State π κ δ φ), (run s l).isSome →
-      (l.map Op.kind).Nodup ∧ ∀ o ∈ l, (step s o).isSome := by
-    intro l
-    induction l with
-    | nil => intro s _; simp
-    | cons o t ih =>
-      intro s hs
-      simp only [run] at hs
-      cases hst : step s o with
-      | none => simp [hst] at hs
-      | some s' =>
-        simp only [hst] at hs
-        obtain ⟨hnd, hall⟩ := ih s' hs
-        refine ⟨?_, ?_⟩
-        · simp only [List.map_cons, List.nodup_cons]
-          refine ⟨?_, hnd⟩
-          intro hmem
-          obtain ⟨o', ho', hk⟩ := List.mem_map.mp hmem
-          have := hall o' ho'
-          cases s <;> cases o <;> simp [step] at hst <;> subst hst <;> cases o' <;> simp_all [step, Op.kind]
-        · intro o' ho'
-          rcases List.mem_cons.mp ho' with rfl | hmem
-          · simp [hst]
-          · have := hall o' hmem
-            cases s <;> cases o <;> simp [step] at hst <;> subst hst <;> cases o' <;> simp_all [step]
   cases hr : run (State.P p) ops with
   | none => simp [chain, hr] at h
-  | some s => exact (key ops _ (by simp [hr])).1
+  | some s => exact (run_nodup ops _ s hr).1
 
 end Chain
 
@@ -147,7 +159,9 @@ theorem uses_only_declared_refuted : ¬ UsesOnlyDeclared := by
 
 /-- every other method mentions only what it declares (over-declaration, e.g. SPE's features, is allowed) -/
 theorem uses_only_declared_partial :
-    ∀ m : Meth, m ≠ .ManifoldSculpting → ∀ c ∈ callbacksMentioned m, c ∈ declaredNeeds m := by decide
+    ∀ m : Meth, m ≠ .ManifoldSculpting → ∀ c ∈ callbacksMentioned m, c ∈ declaredNeeds m := by
+  intro m hm
+  cases m <;> first | exact absurd rfl hm | decide
 
 /-- the full statement: supplying exactly (at least) the declared callbacks is sufficient - the front end never
     answers `unsupported_method_error` -/
@@ -174,11 +188,8 @@ theorem declared_suffices_partial (r : Request) (m : Meth) (hn : (r.kws.map Para
     (frontEnd r).outcome ≠ .threw (errT .unsupported_method_error) := by
   have htyped := merged_typed r ht ⟨_, hm, rfl⟩
   have hmeth : (typedOf (merged r).pmap).meth .method = m := by
-    have h := explicit_values_kept r hn _ hm
-    simp only [PSet.get] at h
-    cases hl : lookup Kw.method (merged r).pmap with
-    | none => simp [hl] at h
-    | some v => simp [hl] at h; subst h; simp [typedOf, hl]
+    have h := lookup_merged_explicit r hn _ hm
+    simp [typedOf, h]
   obtain ⟨-, -, h3, h4⟩ := verdict m r (typedOf (merged r).pmap) (merged r) (typedOf_get (merged r) htyped) hmeth
   have hall : ∀ c ∈ callbacksMentioned m, r.has c = true := by
     intro c hc
